@@ -181,6 +181,72 @@ def RealpathLaw (fs : Fs) : Prop := ∀ q r, fs.realpath q = some r → canonica
 def RootsCanonical (cfg : Config) : Prop :=
   canonical cfg.docRoot = true ∧ ∀ a ∈ cfg.aliases, canonical a.2 = true
 
+/-- **constructor_establishes_roots.**  If the constructor accepts a configuration, every root it
+stores is a `realpath` answer: the hypotheses `RootsCanonical` and "roots are NUL-free" of the
+theorems below are what the constructor guarantees, not extra assumptions about the configuration. -/
+theorem constructor_establishes_roots (fs : Fs) (raw : RawConfig) (cfg : Config) (hfs : RealpathLaw fs)
+    (h : construct fs raw = some cfg) :
+    RootsCanonical cfg ∧ ((0 : UInt8) ∉ cfg.docRoot ∧ ∀ a ∈ cfg.aliases, (0 : UInt8) ∉ a.2) := by
+  have hal : ∀ (l : List (Path × Path)) (al : List (Path × Path)), constructAliases fs l = some al →
+      ∀ a ∈ al, canonical a.2 = true ∧ (0 : UInt8) ∉ a.2 := by
+    intro l
+    induction l with
+    | nil => intro al h a ha; simp [constructAliases] at h; subst h; simp at ha
+    | cons x rest ih =>
+      intro al h a ha
+      obtain ⟨url, p⟩ := x
+      unfold constructAliases at h
+      split at h
+      · simp at h
+      · split at h
+        · simp at h
+        · rename_i cp hcp
+          split at h
+          · simp at h
+          · rename_i l' hl'
+            simp only [Option.some.injEq] at h
+            subst h
+            rcases List.mem_cons.mp ha with rfl | ha
+            · exact hfs _ _ hcp
+            · exact ih l' hl' a ha
+  unfold construct at h
+  split at h
+  · simp at h
+  · rename_i root hroot
+    split at h
+    · simp at h
+    · rename_i al hal'
+      simp only [Option.some.injEq] at h
+      subst h
+      exact ⟨⟨(hfs _ _ hroot).1, fun a ha => (hal _ al hal' a ha).1⟩, (hfs _ _ hroot).2, fun a ha => (hal _ al hal' a ha).2⟩
+
+/-- **constructor_refuses_unresolvable_alias.**  An alias whose target `realpath` cannot resolve (a
+missing directory) makes the constructor throw: no instance exists, so nothing is served — in
+particular the alias is never registered with an empty root (for which `is_file_prefix("",x)`
+would hold for every `x`). -/
+theorem constructor_refuses_unresolvable_alias (fs : Fs) (raw : RawConfig)
+    (h : ∃ a ∈ raw.aliases, fs.realpath (cstr a.2) = none) : construct fs raw = none := by
+  have hal : ∀ l : List (Path × Path), (∃ a ∈ l, fs.realpath (cstr a.2) = none) → constructAliases fs l = none := by
+    intro l
+    induction l with
+    | nil => intro ⟨a, ha, _⟩; simp at ha
+    | cons x rest ih =>
+      intro ⟨a, ha, hnone⟩
+      obtain ⟨url, p⟩ := x
+      unfold constructAliases
+      split
+      · rfl
+      · rcases List.mem_cons.mp ha with rfl | ha
+        · simp only at hnone
+          rw [hnone]
+        · split
+          · rfl
+          · rw [ih ⟨a, ha, hnone⟩]
+  unfold construct
+  split
+  · rfl
+  · rw [hal raw.aliases h]
+
 /-- **served_inside_root** (symlink checking on).  Whenever `main` streams a file or lists a
 directory — for the request itself or for request + `/` + index file — the path it opens is the
 answer `realpath` gave for `root ++ "/" ++ rest`, where `(root, rest)` is what the alias loop chose
